@@ -32,6 +32,7 @@ inductive Label
   | peRecTrip (p : Proc) (b : BId) (e : EId)
   | hSched (p : Proc) (i : IId) (b : BId) (e : EId) (k : HId)
   | hStart (i : IId)
+  | hCancel (i : IId)
   | hEnd (i : IId) (out : Out)
   | hFinish (i : IId) (r : Fin)
   | walWrite (p : Proc) (b : BId) (e : EId) (ok : Bool)
@@ -103,7 +104,7 @@ def execActive (w : World) : Proc → Bool
 def noDeadlineBefore (w : World) (t : Nat) : Bool :=
   (List.range w.ni).all fun i =>
     let I := w.inst i
-    I.deadline == 0 || I.st == .finished || I.st == .ended || t ≤ I.deadline
+    I.deadline == 0 || I.st == .finished || I.st == .ended || I.cancelling || t ≤ I.deadline || cancelInProgress w i
 
 /-- nothing queued and nothing pending or started in the history (`events_pending`, `events_started`, `qsize()`) -/
 def idleCond (w : World) (b : BId) : Bool :=
@@ -227,17 +228,24 @@ def checks (w : World) : Label → Checks
   | .hStart i =>
     [("hStart: unknown instance", i < w.ni),
      ("hStart: instance is not scheduled", (w.inst i).st == .scheduled)]
+  | .hCancel i =>
+    [("hCancel: unknown instance", i < w.ni),
+     ("hCancel: body is not executing", (w.inst i).st == .running || isAwaiting (w.inst i).st),
+     ("hCancel: a sync handler cannot be cancelled", !(w.inst i).kind.isSync),
+     ("hCancel: inline activation still open or event in hand (the innermost task is cancelled first)",
+        (w.act (.inst i)).isNone && (w.inst i).took.isNone),
+     ("hCancel: cancelled although neither its own nor an enclosing deadline has passed nor its run loop is being cancelled",
+        cancelDueAll w i),
+     ("hCancel: already cancelled", !(w.inst i).cancelling)]
   | .hEnd i out =>
     [("hEnd: unknown instance", i < w.ni),
      ("hEnd: body still has an inline activation open or an event in hand",
         (w.act (.inst i)).isNone && (w.inst i).took.isNone),
      ("hEnd: body is not executing (returning/raising needs `running`; cancellation needs running or awaiting)",
-        match out with
-        | .cancelled => (w.inst i).st == .running || isAwaiting (w.inst i).st
-        | _ => (w.inst i).st == .running),
+        (w.inst i).st == .running),
      ("hEnd: a sync handler cannot be cancelled", out != .cancelled || !(w.inst i).kind.isSync),
-     ("hEnd: cancelled although neither its own nor an enclosing deadline has passed",
-        out != .cancelled || cancelDueAll w i),
+     ("hEnd: ends cancelled although its task was never cancelled (no hCancel)",
+        out != .cancelled || (w.inst i).cancelling),
      ("hEnd: a forwarding handler ends without having dispatched",
         !(w.inst i).kind.isForward || (w.inst i).fwdDone),
      ("hEnd: an expect() handler returns unless its predicate raises while the call is still unresolved",
@@ -501,6 +509,7 @@ def apply0 (w : World) : Label → World
     | .ext => w
   | .hSched p i b e k => applySched w p i b e k
   | .hStart i => w.modInst i fun I => { I with st := .running }
+  | .hCancel i => w.modInst i fun I => { I with cancelling := true, st := .running }
   | .hEnd i out =>
     let w' := w.modInst i fun I => { I with st := .ended, out := out }
     -- an expect() handler resolves its caller's future with the first matching event
